@@ -45,6 +45,7 @@ pub fn with_scenario<V: Visitor>(name: &str, v: V) -> Option<V::Out> {
 		"c15_deps" => v.visit(&cli::C15Deps),
 		"c15_capi" => v.visit(&capi::C15Capi),
 		"c16_history" => v.visit(&c16::C16),
+		"c16_procs" => v.visit(&c16::C16Procs),
 		"c18_gc" => v.visit(&c18::C18Gc),
 		"c18_intern" => v.visit(&c18::C18Intern),
 		"c18_teardown_c07" => v.visit(&c18::Teardown {
@@ -63,13 +64,13 @@ pub fn with_scenario<V: Visitor>(name: &str, v: V) -> Option<V::Out> {
 pub fn scenarios_of(property: &str) -> Vec<(&'static str, u64, u64)> {
 	match property {
 		"C03" => vec![("c03_demand", 60_000, 4_000_000)],
-		"C04" => vec![("c04_sweep", 1_500, 100_000), ("c04_history", 15_000, 1_500_000), ("c04_native", 250, 10_000)],
+		"C04" => vec![("c04_sweep", 1_500, 100_000), ("c04_history", 15_000, 600_000), ("c04_native", 250, 5_000)],
 		"C07" => vec![("c07_m1", 40_000, 3_000_000), ("c07_m2", 8_000, 400_000), ("c07_cli", 800, 40_000)],
-		"C15" => vec![("c15_cli", 1_000, 60_000), ("c15_deps", 600, 30_000), ("c15_capi", 1_200, 60_000)],
-		"C16" => vec![("c16_history", 30_000, 2_000_000)],
+		"C15" => vec![("c15_cli", 1_000, 30_000), ("c15_deps", 600, 20_000), ("c15_capi", 1_200, 30_000)],
+		"C16" => vec![("c16_history", 30_000, 1_000_000), ("c16_procs", 250, 8_000)],
 		"C18" => vec![
 			("c18_gc", 12_000, 600_000),
-			("c18_intern", 40_000, 3_000_000),
+			("c18_intern", 40_000, 1_000_000),
 			("c18_teardown_c07", 8_000, 400_000),
 			("c18_teardown_c16", 6_000, 300_000),
 		],
